@@ -119,4 +119,32 @@ def events():
     add('element_name', 'not_str', None, lambda: Flywheel(3, InertiaMoment(1, 'kgm^2')))
     add('element_name', 'empty', None, lambda: Flywheel('', InertiaMoment(1, 'kgm^2')))
     add('element_name', 'ok', None, lambda: Flywheel('f', InertiaMoment(1, 'kgm^2')))
+    # sensor readings (growth): get_value(unit) is the target's live attribute converted to the unit, get_value() the quantity itself
+    from fractions import Fraction
+    from . import spectab
+    from .core import rstr
+    ptv, mv, gv = fresh()
+    amp = Amperometer(mv)
+    vals = [Fraction(0), Fraction(7, 4), Fraction(-1234567, 1000), Fraction(1, 3 * 10**6), Fraction(5 * 10**7)]
+    for sname, sensor, kind, setter in [('enc', AbsoluteRotaryEncoder(gv), 'AngularPosition', lambda x: setattr(gv, 'angular_position', x)),
+                                        ('tach', Tachometer(gv), 'AngularSpeed', lambda x: setattr(gv, 'angular_speed', x)),
+                                        ('amp', amp, 'Current', lambda x: setattr(mv, 'electric_current', x))]:
+        import gearpy.units as U
+        cls = getattr(U, kind)
+        for u_in in spectab.units_of(kind):
+            for k, val in enumerate(vals):
+                q = cls(float(val), u_in)
+                setter(q)
+                si = rstr(spectab.to_si(Fraction(q.value), kind, u_in))
+                for u_out in ([''] + spectab.units_of(kind) if k < 2 else [spectab.units_of(kind)[k % len(spectab.units_of(kind))]]):
+                    n[0] += 1
+                    r, err = outcome(lambda: sensor.get_value(u_out) if u_out else sensor.get_value())
+                    isnum = isinstance(r, (int, float)) and not isinstance(r, bool)
+                    if err is not None:
+                        out = 'raised ' + err
+                    elif isnum:
+                        out = rstr(r)
+                    else:
+                        out = rstr(spectab.to_si(Fraction(r.value), kind, r.unit)) if type(r).__name__ == kind else 'wrong kind'
+                    evs.append({'id': f'api{n[0]}', 'call': 'sensor_value', 'sensor': sname, 'kind': kind, 'si': si, 'unit': u_out, 'out': out, 'isnum': isnum})
     return evs
